@@ -14,8 +14,9 @@ in the emitted text:
           declared return type and explicit constructor / call type arguments
           are printed iff the program carries them, wherever the target
           language can express the omission;
- literals every string / char literal of the program occurs in the text;
-          brackets, quotes and blocks are balanced.
+ literals every string / char / integer / real / boolean literal and every
+          binary operator of the program occurs in the text at least as often
+          as in the program; brackets, quotes and blocks are balanced.
 Identifiers come from a pool without replacement, so a declared name occurs
 once as a declaration (overrides excepted), which makes name-anchored
 scanning reliable."""
@@ -55,6 +56,7 @@ class Inventory:
         self.calls = []
         self.strings = []
         self.chars = []
+        self.ints, self.reals, self.bools, self.ops = [], [], [], []
         self.lambdas = []
         seen = set()
 
@@ -83,6 +85,14 @@ class Inventory:
                 self.news.append(n)
             elif isinstance(n, ast.FunctionCall):
                 self.calls.append(n)
+            elif isinstance(n, ast.IntegerConstant):
+                self.ints.append(str(n.literal).lstrip('-'))
+            elif isinstance(n, ast.RealConstant):
+                self.reals.append(str(n.literal).lstrip('-'))
+            elif isinstance(n, ast.BooleanConstant):
+                self.bools.append(str(n.literal).lower())
+            elif isinstance(n, ast.BinaryOp):
+                self.ops.append(str(n.operator))
             elif isinstance(n, ast.StringConstant):
                 self.strings.append(n.literal)
             elif isinstance(n, ast.CharConstant):
@@ -525,6 +535,22 @@ def judge_text(program, text, lang, stage, col):
         item()
         if lit_text.get("'%s'" % s, 0) < k:
             bad('literal/char-missing', literal=s, want=k, found=lit_text.get("'%s'" % s, 0))
+    num_text = Counter(re.findall(r'(?<![\w.])\d+(?:\.\d+)?', text))
+    for kind, lst in (('integer', inv.ints), ('real', inv.reals)):
+        for s, k in Counter(lst).items():
+            item()
+            if num_text.get(s, 0) < k:
+                bad('literal/%s-missing' % kind, literal=s, want=k, found=num_text.get(s, 0))
+    for s, k in Counter(inv.bools).items():
+        item()
+        found = len(re.findall(r'\b%s\b' % s, T))
+        if found < k:
+            bad('literal/boolean-missing', literal=s, want=k, found=found)
+    for s, k in Counter(inv.ops).items():
+        item()
+        found = T.count(s)
+        if found < k:
+            bad('operator-missing', operator=s, want=k, found=found)
     return out, items[0], inv
 
 
@@ -742,7 +768,8 @@ def finish(tier, cov):
 def run_shard(spec, col):
     quick = col.tier == 'quick'
     boot.init(spec['lang'])
-    progcheck.run(spec, col, make_judge(col), n_seed=24 if quick else 300, n_tape=30 if quick else 1000, shrink=False)
+    progcheck.run(spec, col, make_judge(col), n_seed=24 if quick else 300, n_tape=30 if quick else 1000, shrink=False,
+                  n_hand=40 if quick else 1500)
 
 
 def replay(key, col):
